@@ -192,3 +192,97 @@ REPLAYS = {
   'HeapBalancerSink.__Put': replay_put,
   'HeapBalancerSink._RemoveSink': replay_remove,
 }
+
+
+# --------------------------------------------------------------------------------------------------------------
+def _fresh_balancer(loads_states):
+  """A real balancer whose members have the given (outstanding, channel state, marked_down) triples."""
+  import itertools
+  sink = H.HeapBalancerSink.__new__(H.HeapBalancerSink)
+  sink._heap = [Node(StubChannel(ChannelState.Open), H.HeapBalancerSink.Idle, 0, None)]
+  sink._size = 0
+  sink._downq = None
+  sink._heap_lock = H.RLock()
+  sink._log = _Varz()
+  sink._open = False
+  sink._no_members = StubChannel(ChannelState.Open)
+  sink._HeapBalancerSink__varz = _Varz()
+  sink._servers = {}
+  nodes = []
+  for k, (out, state, down) in enumerate(loads_states):
+    load = (H.HeapBalancerSink.Idle + out) if not down else out
+    n = Node(StubChannel(state), load, 0, 'ep%d' % k)
+    sink._size += 1
+    n.index = sink._size
+    sink._heap.append(n)
+    H.Heap.FixUp(sink._heap, sink._size)
+    if down:
+      n.downq = sink._downq
+      sink._downq = n
+    nodes.append(n)
+  return sink, nodes
+
+
+def replay_get(w, rec):
+  """__Get on small heaps of every mix of outstanding counts, channel states and down marks: the result is the root, a
+  minimum of the (load, index) order, open unless every member is marked down afterwards; the heap stays well formed;
+  a down-marked member whose channel reads Open is taken back."""
+  import itertools
+  bad = []
+  opts = [(0, ChannelState.Open, False), (2, ChannelState.Open, False), (1, ChannelState.Closed, False), (0, ChannelState.Closed, True), (1, ChannelState.Open, True),
+          (0, ChannelState.Busy, False), (3, ChannelState.Open, True)]
+  for n in (1, 2, 3):
+    for combo in itertools.product(opts, repeat=n):
+      sink, nodes = _fresh_balancer(combo)
+      if heap_violations(sink):
+        continue
+      try:
+        got = sink._HeapBalancerSink__Get()
+      except Exception as e:
+        bad.append('%r: __Get raised %s: %s' % (combo, type(e).__name__, e))
+        continue
+      v = heap_violations(sink)
+      if v:
+        bad.append('%r: after __Get %s' % (combo, v[0]))
+      if got is not sink._heap[1]:
+        bad.append('%r: __Get did not return the root' % (combo,))
+      members = sink._heap[1:sink._size + 1]
+      if any(m < got for m in members):
+        bad.append('%r: returned member (load %d) is not least; %s has load %d' % (combo, got.load, [m for m in members if m < got][0].endpoint, [m for m in members if m < got][0].load))
+      if got.channel.state != ChannelState.Open and any(m.load < 0 for m in members):
+        bad.append('%r: returned a member that is not open although an up-marked member exists' % (combo,))
+      for m in members:
+        if m.channel.state == ChannelState.Open and m.load >= 0:
+          bad.append('%r: %s is open again but still marked down after __Get' % (combo, m.endpoint))
+      # outstanding counts survive down-marking and resurrection
+      for m, (out, state, down) in zip(nodes, combo):
+        now = m.load - H.HeapBalancerSink.Idle if m.load < 0 else m.load
+        if now != out:
+          bad.append('%r: %s had %d outstanding request(s), its load now encodes %d' % (combo, m.endpoint, out, now))
+      # the down list holds exactly the down-marked members
+      chain, x, hops = [], sink._downq, 0
+      while x is not None and hops < 10:
+        chain.append(x); x = x.downq; hops += 1
+      marked = [m for m in members if m.load >= 0]
+      if hops >= 10 or set(map(id, chain)) != set(map(id, marked)):
+        bad.append('%r: down list %r, down-marked members %r' % (combo, [c.endpoint for c in chain], [m.endpoint for m in marked]))
+      else:
+        # a second dispatch decision on the same state must agree with the invariants too
+        for m in nodes:
+          if m.load >= 0:
+            m.channel.state = ChannelState.Open      # every down member comes back
+        try:
+          got2 = sink._HeapBalancerSink__Get()
+          still = [m.endpoint for m in sink._heap[1:sink._size + 1] if m.load >= 0]
+          if still:
+            bad.append('%r: after all members came back, %r are still marked down' % (combo, still))
+          if heap_violations(sink):
+            bad.append('%r: second __Get: %s' % (combo, heap_violations(sink)[0]))
+        except Exception as e:
+          bad.append('%r: second __Get raised %s: %s' % (combo, type(e).__name__, e))
+      if len(bad) >= 4:
+        return True, '\n'.join(bad)
+  return bool(bad), '\n'.join(bad) or '__Get returns a least-loaded open member and keeps the heap well formed on every small case'
+
+
+REPLAYS['HeapBalancerSink.__Get'] = replay_get
